@@ -284,6 +284,24 @@ Lemma removelast_len {A} (l : list A) : l <> [] -> zlen (removelast l) = zlen l 
 Proof.
   intros H. destruct (exists_last H) as (l' & x & ->). rewrite removelast_last. unfold zlen. rewrite app_length. cbn. lia.
 Qed.
+(* _update_current_line_cursor when the paragraph cursor points just behind the row's characters *)
+Lemma update_line_cursor_end q r l ts t : p_cur q = Att r -> dget r (p_lines q) = Some l -> l_texts l = ts ++ [t] ->
+  p_cursor q = (r, l_indent l + line_length l) -> l_row l = r ->
+  row_ready (update_line_cursor q) /\ row_text (update_line_cursor q) = line_text l.
+Proof.
+  intros Hc Hg Ets Hcur Hr.
+  assert (Ecl : cur_line q = l) by (unfold cur_line; now rewrite Hc, Hg).
+  unfold update_line_cursor. rewrite Ecl, Hcur. cbn [snd].
+  replace (l_indent l + line_length l - l_indent l) with (line_length l) by lia.
+  assert (Hnn : (line_length l <? 0) = false) by (apply Z.ltb_ge; rewrite line_length_sum; apply sum_len_nonneg).
+  rewrite Hnn. unfold upd_cur_line. rewrite Hc, Hg.
+  destruct (line_set_cursor_total l ts t Ets) as (He2 & Ht2 & Hi2 & Hr2 & Hl2).
+  split.
+  - exists r, (line_set_cursor l (line_length l)). split; [exact Hc|]. split; [apply dget_dset_same|]. split; [exact He2|].
+    split; [rewrite Hr2; exact Hr|]. change (p_cursor (set_plines q _)) with (p_cursor q). rewrite Hcur, Hi2, Hl2. reflexivity.
+  - unfold row_text, cur_line. change (p_cur (set_plines q _)) with (p_cur q). rewrite Hc.
+    change (p_lines (set_plines q ?d)) with d. rewrite dget_dset_same. exact Ht2.
+Qed.
 Lemma para_backspace_ready p : row_ready_ne p -> row_ready (para_backspace p) /\ row_text (para_backspace p) = removelast (row_text p).
 Proof.
   intros (r & l & ts & t & Hc & Hg & Ets & Ecur & Hne & Etc & Hr & Hcur & Hind & Hnd).
@@ -302,45 +320,81 @@ Proof.
   assert (HL : 1 <= line_length l).
   { rewrite line_length_sum, Ets, sum_len_app. cbn [sum_len]. pose proof (sum_len_nonneg ts). lia. }
   unfold para_backspace, upd_cur_text, upd_cur_line. rewrite Hc, Hg. fold l1.
-  cbn [p_cursor set_plines fst snd]. rewrite Hcur. cbn [fst snd].
-  replace (Z.max (l_indent l + line_length l - 1) 0) with (l_indent l + line_length l - 1) by lia.
   set (p1 := set_plines p (dset r l1 (p_lines p))).
-  unfold set_cursor_at.
+  change (p_cursor p1) with (p_cursor p). rewrite Hcur. cbn [fst snd].
+  replace (Z.max (l_indent l + line_length l - 1) 0) with (l_indent l + line_length l - 1) by lia.
+  set (c' := l_indent l + line_length l - 1).
   assert (Ecl : cur_line p1 = l1).
   { unfold cur_line. change (p_cur p1) with (p_cur p). change (p_lines p1) with (dset r l1 (p_lines p)). now rewrite Hc, dget_dset_same. }
-  rewrite Ecl. assert (Er1 : l_row l1 = r) by exact Hr. rewrite Er1.
-  change (p_lines p1) with (dset r l1 (p_lines p)). rewrite dget_dset_same.
-  assert (Hneq : (l_indent l + line_length l - 1 =? -1) = false) by (apply Z.eqb_neq; lia).
-  rewrite Hneq.
+  assert (Er1 : l_row l1 = r) by exact Hr.
+  assert (Hg1 : dget r (p_lines p1) = Some l1) by apply dget_dset_same.
+  assert (Hneq : (c' =? -1) = false) by (apply Z.eqb_neq; unfold c'; lia).
+  unfold set_cursor_at. rewrite Ecl, Er1, Hg1, Hneq.
   destruct (line_is_empty l1) eqn:Hemp.
   - (* the row held one character: the line is removed and created again, empty *)
     unfold line_is_empty in Hemp. apply Z.eqb_eq in Hemp.
-    assert (Hnodup : NoDup (map fst (dset r l1 (p_lines p)))) by (rewrite (dset_keys_present r l1 l _ Hg); exact Hnd).
-    cbn [p_lines set_plines set_cur set_cursor p_cursor]. change (p_lines p1) with (dset r l1 (p_lines p)).
-    rewrite (dget_ddel_nodup r _ Hnodup).
-    unfold new_caption_line. cbn [p_cursor set_cursor set_cur set_plines p_lines].
-    unfold update_line_cursor, upd_cur_line, cur_line. cbn [p_cur p_lines p_cursor set_cur set_plines snd].
-    rewrite !dget_dset_same. cbn [l_indent line_new]. rewrite Z.sub_diag. cbn [Z.ltb Z.compare]. rewrite dget_dset_same.
-    cbn [p_cur p_lines p_cursor set_cur set_plines].
-    split.
-    + exists r, (line_set_cursor (line_new r (l_indent l + line_length l - 1)) 0). split; [reflexivity|]. split; [apply dget_dset_same|].
-      split; [exists [], text_new; repeat split|]. split; [reflexivity|]. cbn. f_equal. lia.
-    + unfold row_text, cur_line. cbn [p_cur p_lines set_plines]. rewrite dget_dset_same. cbn.
-      rewrite Hrow. rewrite <- Etext1. unfold line_text.
+    assert (Hnodup : NoDup (map fst (p_lines p1))) by (unfold p1; cbn [p_lines set_plines]; rewrite (dset_keys_present r l1 l _ Hg); exact Hnd).
+    set (p2 := set_cursor _ (r, c')).
+    assert (Hg2 : dget r (p_lines p2) = None) by (unfold p2; cbn [p_lines set_cursor set_cur set_plines]; now apply dget_ddel_nodup).
+    rewrite Hg2.
+    set (l0 := line_new r c').
+    destruct (update_line_cursor_end (set_cur (new_caption_line p2) (Att r)) r l0 [] text_new) as [H1 H2];
+      try reflexivity.
+    + unfold new_caption_line. change (p_cursor p2) with (r, c'). cbn [p_lines set_cur set_plines]. apply dget_dset_same.
+    + unfold new_caption_line. change (p_cursor p2) with (r, c'). cbn. f_equal. lia.
+    + split; [exact H1|]. rewrite H2, Hrow, <- Etext1. unfold line_text.
       assert (Hz : zlen (flat_map t_text (l_texts l1)) = 0) by (rewrite <- sum_len_flat, <- line_length_sum; exact Hemp).
       destruct (flat_map t_text (l_texts l1)); [reflexivity|discriminate].
   - (* otherwise the line cursor moves to the new end of the row *)
-    cbn [p_lines set_cur set_cursor p_cursor]. change (p_lines p1) with (dset r l1 (p_lines p)). rewrite dget_dset_same.
-    unfold update_line_cursor, upd_cur_line, cur_line. cbn [p_cur p_lines p_cursor set_cur set_cursor snd].
-    change (p_lines p1) with (dset r l1 (p_lines p)). rewrite !dget_dset_same.
-    assert (Ei1 : l_indent l1 = l_indent l) by reflexivity. rewrite Ei1.
-    replace (l_indent l + line_length l - 1 - l_indent l) with (line_length l1) by lia.
-    assert (Hnn : (line_length l1 <? 0) = false) by (apply Z.ltb_ge; rewrite line_length_sum; apply sum_len_nonneg).
-    rewrite Hnn. cbn [p_cur p_lines set_cur set_cursor set_plines]. change (p_lines p1) with (dset r l1 (p_lines p)). rewrite dget_dset_same.
-    destruct (line_set_cursor_total l1 ts t' E1) as (He2 & Ht2 & Hi2 & Hr2 & Hl2).
-    split.
-    + exists r, (line_set_cursor l1 (line_length l1)). cbn [p_cur p_lines p_cursor set_plines set_cur set_cursor].
-      split; [reflexivity|]. split; [apply dget_dset_same|]. split; [exact He2|]. split; [rewrite Hr2; exact Er1|].
-      rewrite Hi2, Hl2, Ei1, EL1. f_equal. lia.
-    + unfold row_text, cur_line. cbn [p_cur p_lines set_plines set_cur set_cursor]. rewrite dget_dset_same, Ht2, Etext1, Hrow. reflexivity.
+    set (p2 := set_cursor (set_cur p1 (Att r)) (r, c')).
+    assert (Hg2 : dget r (p_lines p2) = Some l1) by exact Hg1.
+    rewrite Hg2.
+    destruct (update_line_cursor_end (set_cur p2 (Att r)) r l1 ts t') as [H1 H2]; try reflexivity; try assumption.
+    + unfold p2. cbn [p_cursor set_cur set_cursor]. f_equal. unfold c'. change (l_indent l1) with (l_indent l). lia.
+    + split; [exact H1|]. rewrite H2, Etext1, Hrow. reflexivity.
+Qed.
+
+Lemma p_style_set_cursor_at p row ind : p_style (set_cursor_at p row ind) = p_style p.
+Proof.
+  unfold set_cursor_at.
+  set (p1 := match dget _ (p_lines p) with Some l => _ | None => p end).
+  assert (E1 : p_style p1 = p_style p). { unfold p1. destruct (dget _ _); [|reflexivity]. destruct (line_is_empty _); reflexivity. }
+  clearbody p1. set (p2 := set_cursor p1 _). assert (E2 : p_style p2 = p_style p) by exact E1. clearbody p2.
+  set (p3 := match dget row (p_lines p2) with None => _ | Some _ => p2 end).
+  assert (E3 : p_style p3 = p_style p). { unfold p3. destruct (dget row _); [exact E2|]. unfold new_caption_line. destruct (p_cursor p2). exact E2. }
+  clearbody p3. destruct (ind =? -1); [exact E3|]. unfold update_line_cursor. rewrite p_style_upd_cur_line.
+  destruct (_ <? 0); [rewrite p_style_upd_cur_line|]; exact E3.
+Qed.
+Lemma p_style_para_backspace p : p_style (para_backspace p) = p_style p.
+Proof. unfold para_backspace. rewrite p_style_set_cursor_at. unfold upd_cur_text. apply p_style_upd_cur_line. Qed.
+Lemma backspace_is c p : target c = Some p -> backspace c = upd_cap c para_backspace.
+Proof. intros H. unfold backspace. change (cap_to_process c) with (target c). rewrite H. reflexivity. Qed.
+Lemma target_upd_cap c f p : target c = Some p -> target (upd_cap c f) = Some (f p) /\ c_style (upd_cap c f) = c_style c.
+Proof.
+  unfold target, upd_cap. destruct (c_style c =? sPopOn) eqn:E.
+  - intros H; inversion H; subst. cbn [c_style c_buf with_buf]. rewrite E. split; reflexivity.
+  - intros H. unfold upd_act. rewrite H. cbn [c_style c_act with_act]. rewrite E. split; reflexivity.
+Qed.
+(* backspace: the preceding character is removed and the cursor is at the end of the row again *)
+Lemma backspace_removes_last c p : target c = Some p -> row_ready_ne p ->
+  exists p', target (backspace c) = Some p' /\ row_ready p' /\ row_text p' = removelast (row_text p) /\
+             c_style (backspace c) = c_style c /\ p_style p' = p_style p.
+Proof.
+  intros Ht Hr. rewrite (backspace_is c p Ht). destruct (target_upd_cap c para_backspace p Ht) as [E1 E2].
+  destruct (para_backspace_ready p Hr) as [H1 H2].
+  exists (para_backspace p). repeat split; try assumption. apply p_style_para_backspace.
+Qed.
+(* extended characters replace the preceding character: SccLine.process calls backspace() and then writes the character *)
+Lemma extended_replaces c p ch : target c = Some p -> row_ready_ne p ->
+  (c_style c = sPopOn \/ c_style c = sRollUp \/ (c_style c = sPaintOn /\ p_style p = sPaintOn)) ->
+  target_ready (process_text (backspace c) [ch]) /\
+  target_text (process_text (backspace c) [ch]) = removelast (row_text p) ++ [ch].
+Proof.
+  intros Ht Hr Hst. destruct (backspace_removes_last c p Ht Hr) as (p' & Ht' & Hr' & Htx & Hs' & Hps).
+  assert (Hready : target_ready (backspace c)) by (unfold target_ready; now rewrite Ht').
+  assert (Htext : target_text (backspace c) = removelast (row_text p)) by (unfold target_text; now rewrite Ht').
+  rewrite <- Htext. apply text_accumulates; [|exact Hready|discriminate].
+  rewrite Hs'. destruct Hst as [H|[H|[H1 H2]]]; [now left|right; now left|right; right].
+  split; [exact H1|]. exists p'. split; [|now rewrite Hps].
+  unfold target in Ht'. rewrite Hs', H1 in Ht'. exact Ht'.
 Qed.
